@@ -9,6 +9,8 @@ BASELINE = "cd /repo && /venv/bin/python -m pytest -ra -q -p no:cacheprovider --
 CHECKS = {
     "C01": ("reference-model monitor (sumset square-and-multiply oracle) on BitLengthSet queries + operand-immutability re-query",
             "R-bls reference (pv/ref/bls.py), cost predictor that resamples trees the unchanged implementation cannot answer"),
+    "C02": ("reference-model monitor (R-layout) on every type object of generated universes, two build routes compared",
+            "R-layout restates the Specification's layout rules; R-bls evaluates the expected sets; cost predictor bounds divisors"),
 }
 
 NOT_YET = {
